@@ -18,7 +18,7 @@ DEPENDS = {
     "C02": ("C09", "C11", "C12", "C13", "C15"),
     "C03": ("C09", "C11", "C12", "C13"),
     "C04": ("C09", "C11", "C12", "C13"),
-    "C05": ("C04",),
+    "C05": ("C04", "C15"),
     "C06": ("C11", "C15"),
     "C07": ("C09", "C12", "C05", "C06"),
     "C08": ("C04",),
